@@ -4432,3 +4432,6 @@ mod test_map {
         assert_eq!(dropped.load(Ordering::SeqCst), 1);
     }
 }
+
+#[cfg(hashbrown_verif)]
+pub(crate) mod verif_hooks;
